@@ -29,6 +29,12 @@ def main():
     for f in sorted(glob.glob(os.path.join(VERIF, "seeded", "*", "meta.json"))):
         m = json.load(open(f))
         prev.setdefault(m["breaks_property"], []).append((m.get("change"), m.get("needs_to_manifest")))
+    # rounds whose seeds are described but not yet filed as seeded/<id>/meta.json
+    for f in sorted(glob.glob(os.path.join(VERIF, "seeded", "r*_descriptions.json"))):
+        r = os.path.basename(f)[1:].split("_")[0]
+        for pid, d in json.load(open(f)).items():
+            if not os.path.exists(os.path.join(VERIF, "seeded", "%s-r%s" % (pid, r), "meta.json")):
+                prev.setdefault(pid, []).append((d["change"], d["needs"]))
     for pid, p in props.items():
         wt = "/tmp/seed-r%s-%s" % (rnd, pid)
         a = p["anchors"]
